@@ -36,3 +36,41 @@ Proof.
   destruct ex_data as (A & B & C & D). split; [exact A|]. split; [exact B|]. split; [symmetry; exact D|].
   rewrite C. discriminate.
 Qed.
+
+(* finding C19-F5: the first part has 2 channels x 3 products, the second one 4 channels x 3 products (another spectral
+   window); select(spw=0) has deselected every dump of the second part and hands both parts the 2-channel mask.
+   h5 parts: the whole presents the first part (spec and model agree); v4 parts: every access raises. *)
+Definition ex_sparts : list spart :=
+  [mk_spart [2; 3] (mk_dpart 3 [true; false; true] (arange [3; 2; 3] 0));
+   mk_spart [4; 3] (mk_dpart 2 [false; false] (arange [2; 4; 3] 2))].
+
+Lemma ex_sized :
+  Forall (fun p => dpart_ok (sp_part p)) ex_sparts /\ tail_ok [2; 3] ex_tailkeep /\
+  (forall p, In p ex_sparts -> fits [2; 3] p = false -> has_dump p = false) /\
+  spec_ds_sized [2; 3] ex_tailkeep 0 ex_sparts [ASlice None None None]
+  = Ok (mk_arr 0 (mk_nd [2; 2; 2] (Node [Node [Node [Leaf 0; Leaf 2]; Node [Leaf 3; Leaf 5]];
+                                           Node [Node [Leaf 12; Leaf 14]; Node [Leaf 15; Leaf 17]]]))) /\
+  ds_getitem_sized false [2; 3] ex_tailkeep 0 ex_sparts [ASlice None None None]
+  = spec_ds_sized [2; 3] ex_tailkeep 0 ex_sparts [ASlice None None None] /\
+  ds_getitem_sized true [2; 3] ex_tailkeep 0 ex_sparts [ASlice None None None] = Err.
+Proof.
+  split.
+  { repeat constructor; cbn; eexists; (split; [reflexivity|reflexivity]). }
+  split.
+  { split; repeat constructor; lia. }
+  split.
+  { intros p [<-|[<-|[]]]; vm_compute; congruence. }
+  repeat split; vm_compute; reflexivity.
+Qed.
+
+Lemma ex_sized_refuted :
+  exists tail tailkeep dt parts ix out,
+    Forall (fun p => dpart_ok (sp_part p)) parts /\ tail_ok tail tailkeep /\
+    (forall p, In p parts -> fits tail p = false -> has_dump p = false) /\
+    spec_ds_sized tail tailkeep dt parts ix = Ok out /\
+    ds_getitem_sized true tail tailkeep dt parts ix = Err.
+Proof.
+  destruct ex_sized as (A & B & C & D & _ & E).
+  exists [2; 3], ex_tailkeep, 0, ex_sparts, [ASlice None None None]. eexists.
+  split; [exact A|]. split; [exact B|]. split; [exact C|]. split; [exact D|exact E].
+Qed.
